@@ -52,6 +52,15 @@ pub struct Workload {
     pub shape: String,
     /// node programs begin and end with a beacon read (see gen::frag_beacon)
     pub beacons: bool,
+    /// harness-driven entries only: the caller's cache map was used before, for an outputs
+    /// pass over the same set against an *older* pre-state (a re-validation after the state
+    /// moved on). Whatever that pass left in the map must not influence this check.
+    #[serde(default)]
+    pub stale_prelude: bool,
+    /// harness-driven entries only: the caller's cache map was used before for an outputs pass
+    /// over the first half of this set (a set that grew since it was last checked)
+    #[serde(default)]
+    pub prefix_prelude: bool,
 }
 
 pub struct Mat {
